@@ -219,10 +219,11 @@ def elifCore (E : ElseLay) (L : IfLay) (cond : Str) : Str := [125] ++ E.s1 ++ E.
 def elseCore (E : ElseLay) (c : Str) : Str := [125] ++ E.s1 ++ E.kw ++ E.s2 ++ [123] ++ c
 def closeCore (c : Str) : Str := [125] ++ c
 
-/-- a stripped line that `_rewrite` passes on unchanged (outside legacy groups) -/
+/-- a stripped line that none of the patterns of `_rewrite` matches -/
 def neutral (l : Str) : Bool :=
   !l.isEmpty && (kwEqCap sFile isWordCh l).isNone && (synonyms.foldl (fun l p => replaceAll p.1 p.2 l) l == l)
     && (kwEqCap sAction isTokCh l).isNone && !qualLine l && !kwLine sGroupC l && (kwEqCap sFlavorKw isTokCh l).isNone
+    && !kwLine sCommonC l && !kwLine sEndC l && (kwEqCap sProduct isWordCh l).isNone
 
 /-- indentation and trailing comment of a line -/
 structure Wrap where
@@ -321,5 +322,63 @@ def joinNL : List Str → Str
 /-- the text of a table; `nl`: the file ends with a newline -/
 def tableText (t : List TItemT) (nl : Bool) : Str :=
   joinNL (t.flatMap TItemT.rawLines) ++ (if nl then [10] else [])
+
+/-! ## legacy `Flavor=` groups
+
+New style: one or more `Flavor = f` lines open a block that runs to the next `Flavor =` line or to the end of the
+file.  Old style: `Group:` / `Flavor = f`… / `Common:` / … / `End:`. -/
+
+/-- `Flavor = f` as written -/
+structure FlavLine where
+  wrap : Wrap
+  kw : Str                 -- the keyword as spelled
+  s1 : Str                 -- blanks before `=`
+  s2 : Str                 -- and after it
+  flavor : Str
+  after : Str              -- blanks after the name
+  deriving Repr
+
+def FlavLine.core (f : FlavLine) : Str := f.kw ++ f.s1 ++ [61] ++ f.s2 ++ f.flavor ++ f.after
+def FlavLine.raw (f : FlavLine) : Str := f.wrap.around f.core
+def FlavLine.ok (f : FlavLine) : Bool :=
+  f.wrap.ok && Str.lower f.kw == sFlavorKw && hblank f.s1 && hblank f.s2 && !f.flavor.isEmpty && f.flavor.all isTokCh
+    && hblank f.after
+
+/-- `FLAVOR == f1 || FLAVOR == f2 || …`, the condition `_rewrite` builds for a run of `Flavor=` lines -/
+def flavCond (f : Str) (gs : List Str) : Str :=
+  gs.foldl (fun c g => c ++ sBarBar ++ sFlavorEq ++ g) (sFlavorEq ++ f)
+
+/-- a new-style group: its `Flavor=` lines, then lines up to the next group (the first of them not empty) -/
+structure FGroup where
+  f : FlavLine
+  more : List FlavLine
+  first : Str
+  rest : List Str
+  deriving Repr
+
+/-- a raw line `_rewrite` drops or passes on, and that is one line -/
+def passesLine (raw : Str) : Bool :=
+  raw.all (· != 10) && ((strip raw).isEmpty || neutral (strip raw))
+
+def FGroup.ok (g : FGroup) : Bool :=
+  g.f.ok && g.more.all FlavLine.ok && g.first.all (· != 10) && !(strip g.first).isEmpty && neutral (strip g.first)
+    && g.rest.all passesLine
+
+def FGroup.raws (g : FGroup) : List Str := g.f.raw :: g.more.map FlavLine.raw ++ g.first :: g.rest
+
+/-- the `if` line `_rewrite` writes for the group -/
+def FGroup.ifLine (g : FGroup) : Str := sIfOpen ++ flavCond g.f.flavor (g.more.map FlavLine.flavor) ++ sIfClose
+
+/-- the block the group is equivalent to -/
+def FGroup.block (g : FGroup) : List Str :=
+  g.ifLine :: ((g.first :: g.rest).map strip).filter (fun l => !l.isEmpty) ++ [sClose]
+
+/-- a legacy table (new style): lines outside any group, then the groups -/
+def legacyText (pre : List Str) (gs : List FGroup) (nl : Bool) : Str :=
+  joinNL (pre ++ gs.flatMap FGroup.raws) ++ (if nl then [10] else [])
+
+/-- the same table with every group written as the `if` block it stands for -/
+def legacyAsIfText (pre : List Str) (gs : List FGroup) (nl : Bool) : Str :=
+  joinNL (pre ++ gs.flatMap FGroup.block) ++ (if nl then [10] else [])
 
 end EupsModel.C11Spec
